@@ -157,7 +157,7 @@ DROP_GUARD = Rw("R9", r"drop\(state\);", "", count=1)
 
 UNIT = Unit(
     name="c16_tabs",
-    properties=["C16"],
+    properties=["C06", "C16"],
     prelude=["time", "atomics", "tabs", "est_opaque", "target_opaque"],
     trusted=[
         "R5 helpers: has_tab = str::contains('\\t'), expand_tabs = s.replace('\\t', &\" \".repeat(n)), once_get_or_expand = OnceLock::get_or_init(|| ...) (returns the cached value if present else the fresh expansion)",
